@@ -128,4 +128,40 @@ PROPS = {
         "explanation": "The five verify functions are modelled statement by statement and characterised exactly (accept iff distinct staked signers, quorum weight, every signature for exactly the certificate's content); tamper=>reject and "
                        "'a rejected message leaves the state literally unchanged' are theorems. The verify engine runs the real verify functions and the model on valid messages and ~10 mutation classes; the cons engine shows invalid messages never change the real node's outputs.",
     },
+    "C14": {
+        "lean_modules": ["HotstuffModel.Properties.C14"],
+        "engines": [{"name": "sender"}],
+        "level": "proof",
+        "trusted_base": TB_COMMON + [
+            "network/src/simnet.rs standing in for TCP: FIFO byte stream per connection, EOF/BrokenPipe on close, refused connect on an unbound port",
+            "tokio mpsc as FIFO, oneshot as one-shot cell, select! as arbitrary choice among ready branches, paused-clock timers",
+            "harness/src/e2_sender.rs: the scheduler resolving the model's free choices (connect/write outcome, reader result) from the environment the harness controls",
+        ],
+        "assumptions": [
+            "the peer answers the k-th frame it reads on a connection with the k-th frame it writes on it; a peer writing unsolicited frames can make a handle complete with bytes that are not a reply to its message",
+            "'eventually delivered' only under fairness: a connection eventually stays up until the buffer is written and the replies are read (theorem delivered_if_connection_stays_up states the schedule)",
+            "mpsc capacity (1000) only blocks the caller, not modelled; half-open TCP (peer dies without FIN/RST) is outside the model",
+            "is_closed is checked when a write starts: a handle dropped while its write is blocked does not stop that one write",
+            "first-transmission order is proved in step form (first_transmissions_in_handover_order_partial); the whole-trace form is checked by the engine's monitor only",
+        ],
+        "explanation": "Theorems over every event sequence of the Connection model (order, ACK pairing, no loss, cancellation, retransmission on reconnect, back-off bounds); engine `sender` drives the real ReliableSender against a scripted simnet peer and the real Receiver under virtual time, "
+                       "compares per-connection frame lists / connection count / handle results with the model after every op, and runs the C14 monitor on the real observations.",
+    },
+    "C11": {
+        "lean_modules": ["HotstuffModel.Properties.C11"],
+        "engines": [{"name": "batchmaker"}, {"name": "batchmaker", "features": "benchmark"}],
+        "level": "proof",
+        "trusted_base": TB_COMMON + [
+            "bincode fixed-int LE layout (checked byte-for-byte by the engine, decode direction with the real bincode)",
+            "SHA-512/256-trunc collision-free (digest = pre-image in the model)",
+        ],
+        "assumptions": [
+            "usize lengths < 2^64",
+            "timer modelled as an event; the real-time bound 'sealed by t + max_batch_delay' is proved only as 'by the next timer expiry' and checked on the real code by the engine's monitor",
+            "MempoolReceiverHandler is private: the engine compares the model's receiverHandler with the real bincode::deserialize::<MempoolMessage> on sealed and mutated frames",
+        ],
+        "explanation": "BatchMaker modelled as (cur, size) with events tx/timer for both build configurations; theorems for every event sequence, batch size (incl. 0) and tx content (incl. empty): sealed batches ++ open batch = accepted txs in order, "
+                       "seal exactly at the threshold step / at timer expiry, no panic (benchmark build: given the length-first sample-tx test), batch encoding injective, Processor/handler use the hash of the exact bytes. "
+                       "Engine `batchmaker` drives the real BatchMaker + Processor in BOTH builds (default and --features benchmark) under virtual time and compares sealed bytes, store keys and digests.",
+    },
 }
